@@ -23,7 +23,11 @@ WEAK = {  # switch -> the invariant TLC must refute with it (checked alone: dete
     "SaveBeforeValidate": ["OnlyCanonical"],
     "NoRedo": ["LiarsDropped"],
     "SeenCommitUnchecked": ["CleanHandover"],
+    # ValidateBlock(first) and the part-set-header comparison each catch a block whose LastCommit differs only in
+    # fields Commit.Hash() does not cover (commit height / BlockID); the property breaks only when BOTH are gone
+    "NoValidateNoPartSet": ["OnlyCanonical"],
 }
+WEAK_LIVE = {"StaleMaxPeerHeight": "Temporal"}   # thorough tier: LiveSpec with the switch violates ReachesTip
 VALS_A = {"powers": [2, 1, 1], "addAt": 1, "addPow": 1}   # = MC_ValsAt: {2,1,1} then {2,1,1,1} from height 3
 VALS_C = {"powers": [3, 2, 1], "addAt": 0, "addPow": 0}   # total = 0 mod 3
 VALS_B = {"powers": [1, 1, 1], "addAt": 0, "addPow": 0}   # no room behind the quorum: pad kinds degenerate
@@ -48,6 +52,23 @@ def sched_matrix(T):
                      {"a": "Response", "p": "l1", "h": h, "kind": kind},
                      {"a": "Join", "p": "h1"}, {"a": "Status", "p": "h1", "base": 1, "height": T}]
             out.append({"id": "mx-%s-%d" % (kind, h), "src": "matrix", "T": T, "peers": P2, "steps": steps})
+    return out
+
+
+def sched_late(T):
+    """A lying block that meets the verification as FIRST without ever having been SECOND: a liar serves
+    1..h truthfully (h-1 gets saved with the genuine h as second), is dropped for silence on h+1 (its
+    requesters reset, the genuine h is forgotten), a second liar is the only peer for h and answers with
+    the lie, then the honest peer brings h+1."""
+    out = []
+    for kind in ["WC", "commitH", "W", "padBad", "addrEarly", "H"]:
+        for h in range(2, T):
+            steps = [{"a": "Join", "p": "l1"}, {"a": "Status", "p": "l1", "base": 1, "height": h + 1}]
+            steps += [{"a": "Response", "p": "l1", "h": k, "kind": "H"} for k in range(1, h + 1)]
+            steps += [{"a": "Timeout", "p": "l1"}, {"a": "Join", "p": "l2"}, {"a": "Status", "p": "l2", "base": h, "height": h},
+                      {"a": "Response", "p": "l2", "h": h, "kind": kind},
+                      {"a": "Join", "p": "h1"}, {"a": "Status", "p": "h1", "base": 1, "height": T}]
+            out.append({"id": "late-%s-%d" % (kind, h), "src": "late", "T": T, "peers": P3, "steps": steps})
     return out
 
 
@@ -117,14 +138,35 @@ def run_harness(ctx, binp, label, vals, scheds, par):
                    "kinds": LIE_KINDS, "status": [[1, 0], [1, 0], [1, 1], [1, -2], [2, 0], [1, 2]]}, f)
     out = ctx.subdir("c13-out-" + label)
     rc, txt = ctx.run_test(binp, "^TestVerifC13$", {"VERIF_IN": inp, "VERIF_OUT": out}, timeout=1500, label="c13:" + label)
-    if rc != 0:
+    # one file per run, written event by event: a panic inside the reactor's own goroutine kills the
+    # test process, what was observed until then is still judged
+    rows = []
+    complete = 0
+    for f in sorted(os.listdir(out)):
+        if f.startswith("run-"):
+            try:
+                rr = core.read_ndjson(os.path.join(out, f))
+            except ValueError:
+                rr = []
+                with open(os.path.join(out, f)) as fh:
+                    for line in fh:
+                        try:
+                            rr.append(json.loads(line))
+                        except ValueError:
+                            break
+            if rr and rr[0].get("ev") == "Reset":
+                rows += rr
+                complete += 1 if rr[-1].get("ev") == "End" else 0
+    crashed = None
+    if rc != 0 or not os.path.exists(os.path.join(out, "done")):
         ctx.save_log("harness-" + label, txt)
-        raise Undecided("C13 harness (%s) failed (rc=%d): %s" % (label, rc, txt[-1500:]))
-    rows = core.read_ndjson(os.path.join(out, "trace.ndjson"))
-    nruns = sum(1 for r in rows if r["ev"] == "Reset")
-    if nruns != len(scheds):
-        raise Undecided("C13 harness (%s) executed %d of %d schedules" % (label, nruns, len(scheds)))
-    return rows
+        m = re.search(r'^(panic: .*|fatal error: .*)$', txt, re.M)
+        crashed = "C13 harness (%s) died (rc=%d) after %d complete runs: %s" % (
+            label, rc, complete, (m.group(1)[:300] if m else txt[-600:]))
+        log(crashed)
+    elif complete != len(scheds):
+        raise Undecided("C13 harness (%s) executed %d of %d schedules" % (label, complete, len(scheds)))
+    return rows, crashed
 
 
 def collect(ctx, verdict, label, vals, scheds, rows, stats):
@@ -182,9 +224,13 @@ def run(ctx):
     binp = ctx.go_build_test("blockchain/v0", HARNESS)
 
     # ---- 1. design spec: exhaustive configs, non-vacuity, liveness -------------------------
-    exh = ["C13_small.cfg", "C13_t4.cfg", "C13_liars.cfg"] if quick else \
-          ["C13_small.cfg", "C13_t4.cfg", "C13_liars.cfg", "C13_quick.cfg", "C13_thorough.cfg"]
+    exh = ["C13_small.cfg", "C13_liars.cfg"] if quick else \
+          ["C13_small.cfg", "C13_t4.cfg", "C13_liars.cfg", "C13_quick.cfg"]
+    fast = os.environ.get("VERIF_C13_FAST") == "1"      # development only: skip the exhaustive configs
+    if fast:
+        exh = ["C13_small.cfg"]
     results = {}
+    ctx.spec_copy()   # before the threads start (the copy is not re-entrant)
 
     def tlc_exh(cfg):
         return cfg, ctx.tlc("C13_mc", cfg, workers=tw, timeout=2400, heap="5g", label=cfg[:-4])
@@ -196,14 +242,19 @@ def run(ctx):
     def tlc_live(_):
         return "live", ctx.tlc("C13_mc", "C13_live.cfg", workers=tw, timeout=2400, heap="5g", label="C13_live")
 
+    def tlc_weak_live(w):
+        cfg = "C13_weak_%s.cfg" % w
+        return "weaklive:" + w, ctx.tlc("C13_mc", cfg, workers=tw, timeout=1800, heap="5g", label=cfg[:-4])
+
     jobs = [(tlc_exh, c) for c in exh] + [(tlc_weak, w) for w in WEAK]
-    if not quick:
+    if not quick and not fast:
         jobs.append((tlc_live, None))
+        jobs += [(tlc_weak_live, w) for w in WEAK_LIVE]
     with ThreadPoolExecutor(max_workers=3 if quick else 2) as ex:
         for k, r in ex.map(lambda j: j[0](j[1]), jobs):
             results[k] = r
     states = transitions = 0
-    for c in exh + (["live"] if not quick else []):
+    for c in exh + (["live"] if not quick and not fast else []):
         r = results[c]
         if not r.ok:
             ctx.save_log(c, r.out)
@@ -222,7 +273,17 @@ def run(ctx):
             raise Undecided("vacuity: weakened spec Weak_%s does not violate any of %s" % (w, invs))
         nonvac["Weak_%s refuted by TLC (%s)" % (w, hit[0]["name"])] = True
         acts = [to_json(s["act"]) for _h, s in hit[0]["trace"] if "act" in s]
-        attack.append({"id": "attack-" + w, "src": "weak", "T": t_small, "peers": peers_small, "steps": steps_of_acts(acts)})
+        for k in range(3):   # peer choice is not controlled: several attempts
+            attack.append({"id": "attack-%s-%d" % (w, k), "src": "weak", "T": t_small, "peers": peers_small,
+                           "steps": steps_of_acts(acts)})
+
+    if not quick and not fast:
+        for w, name in WEAK_LIVE.items():
+            r = results["weaklive:" + w]
+            if r.timed_out or not any(v["name"] == name for v in r.violations):
+                ctx.save_log("weaklive_" + w, r.out)
+                raise Undecided("vacuity: LiveSpec with Weak_%s does not violate ReachesTip" % w)
+            nonvac["Weak_%s refuted by TLC (ReachesTip, temporal)" % w] = True
 
     # ---- 2. behaviours of the design spec as schedules (simulation) ------------------------
     nsim = 40 if quick else 400
@@ -249,23 +310,31 @@ def run(ctx):
     # ---- 3. run on the real code -----------------------------------------------------------
     batches = []
     if quick:
-        batches.append(("A", VALS_A, sched_matrix(4) + attack + sims + sched_pairs(4, rng, 16) + sched_random(seed, 30)))
-        batches.append(("C", VALS_C, sched_matrix(3)[::2] + sched_random(seed + 1, 16)))
+        batches.append(("A", VALS_A, sched_matrix(4) + sched_late(4) + attack + sims + sched_pairs(4, rng, 16)
+                        + sched_random(seed, 30)))
+        batches.append(("C", VALS_C, sched_matrix(3)[::2] + sched_late(3) + sched_random(seed + 1, 16)))
     else:
-        batches.append(("A", VALS_A, sched_matrix(4) + sched_matrix(5) + attack + sims + sched_pairs(4, rng, 200)
-                        + sched_random(seed, 500)))
-        batches.append(("C", VALS_C, sched_matrix(4) + sched_pairs(3, rng, 60) + sched_random(seed + 1, 200)))
-        batches.append(("B", VALS_B, sched_matrix(3) + sched_random(seed + 2, 100)))
+        batches.append(("A", VALS_A, sched_matrix(4) + sched_matrix(5) + sched_late(4) + sched_late(5) + attack + sims
+                        + sched_pairs(4, rng, 200) + sched_random(seed, 500)))
+        batches.append(("C", VALS_C, sched_matrix(4) + sched_late(4) + sched_pairs(3, rng, 60) + sched_random(seed + 1, 200)))
+        batches.append(("B", VALS_B, sched_matrix(3) + sched_late(3) + sched_random(seed + 2, 100)))
 
     verdict = core.Verdict(ctx)
     stats = new_stats()
     samples = []
+    crashes = []
     for label, vals, scheds in batches:
-        rows = run_harness(ctx, binp, label, vals, scheds, par)
-        collect(ctx, verdict, label, vals, scheds, rows, stats)
+        rows, crashed = run_harness(ctx, binp, label, vals, scheds, par)
+        if crashed:
+            crashes.append(crashed)
+        if rows:
+            collect(ctx, verdict, label, vals, scheds, rows, stats)
         if len(samples) < 2:
             first = [r for r in rows if r["run"] == 1]
             samples.append(core.abridge([{k: v for k, v in r.items() if k != "pool"} for r in first], 14))
+    if crashes and not verdict.new:
+        # the driver died and nothing observed before its death breaks the property: cannot decide
+        raise Undecided(crashes[0])
     if stats["ends"] and stats["unstable"] * 10 > stats["ends"]:
         raise Undecided("%d of %d runs never became quiescent (machine overloaded?)" % (stats["unstable"], stats["ends"]))
 
@@ -282,12 +351,14 @@ def run(ctx):
         "samples": samples,
         "exhaustive": False,
         "tlc_runs": ctx.tlc_stats[:40],
-        "exhaustive_design_configs": exh + ([] if quick else ["C13_live.cfg (LiveSpec => ReachesTip)"]),
+        "exhaustive_design_configs": exh + ([] if quick or fast else ["C13_live.cfg (LiveSpec => ReachesTip)"]),
+        "dev_fast": fast,
         "schedules": {lab: len(s) for lab, _v, s in batches},
         "runs_handed_over": stats["handed"],
         "runs_not_quiescent_not_judged_for_liveness": stats["unstable"],
         "schedule_steps_not_enabled_on_real_run": stats["skipped"],
         "observed_panics": stats["panics"],
+        "harness_process_deaths": crashes,
         "peer_stops_by_reason": stats["stops"],
         "responses_by_kind": stats["kinds"],
         "conformance_drift": stats["drift"][:8],
@@ -322,10 +393,12 @@ def replay(ctx, path):
         s["seed"] = sc.get("seed", 0)
         scheds.append(s)
     binp = ctx.go_build_test("blockchain/v0", HARNESS)
-    rows = run_harness(ctx, binp, "replay", rep["vals"], scheds, 6)
+    rows, crashed = run_harness(ctx, binp, "replay", rep["vals"], scheds, 6)
     verdict = core.Verdict(ctx)
     stats = new_stats()
-    v = collect(ctx, verdict, "replay", rep["vals"], scheds, rows, stats)
+    v = collect(ctx, verdict, "replay", rep["vals"], scheds, rows, stats) if rows else {"viol": []}
+    if crashed and not verdict.new:
+        raise Undecided(crashed)
     for x in v["viol"]:
         log("replay: %s [%s] at %s" % (x["inv"], x["class"], json.dumps(core.abridge(x["row"]))[:300]))
     return verdict.finish()
